@@ -563,6 +563,19 @@ CSUB_NOTE = ("The concurrent theorems are about a small-step Coq model of ONE su
              "runtime) are covered by the theorems only; the refutation theorem for the pinned code was replayed on the "
              "implementation and failed there exactly as predicted (and no longer fails after fix fd73b54).")
 
+def eng_stream_enum(mon):
+    def eng(ctx):
+        cases = gen.stream_enum_cases(ctx.n(3, 4))
+
+        def mon2(ops, lines):
+            return mon(ops, lines) or M.mon_fanout(ops, lines)
+        out = ctx.seq("stream-enum", cases, relevant=DATA_OPS, triggers={"SS"}, monitor=mon2)
+        ctx.stats["streams"]["stream-enum"]["exhaustive_depth"] = ctx.n(3, 4)
+        return out
+    eng.__name__ = "eng_stream_enum"
+    return eng
+
+
 def eng_modify_batches(ctx):
     cases = gen.modify_batch_cases()
     if not ctx.thorough:
@@ -594,7 +607,8 @@ def eng_id_lists(mon, kinds):
 
 
 reg("C02", [eng_id_lists(M.mon_ack_final, ("ack", "sack", "sackmod")), eng_data_enum(M.mon_ack_final, {"ACK"}),
-            eng_data_random(M.mon_ack_final, {"ACK"}, streams=True, tag="data-stream-random")],
+            eng_data_random(M.mon_ack_final, {"ACK"}, streams=True, tag="data-stream-random"),
+            eng_stream_enum(M.mon_ack_final)],
     rule="id-lists: Acknowledge (unary and streaming) with every id list of length 1..3 over {stale, live, live, unknown, "
          "oddly spelled live}, then expiry and drain; data-enum: every sequence over {pub, pub2, pull1, pullN, ack-last, ack-first, ack-unknown, nack, modify, +5.1s, +10.1s} "
          "up to the depth noted, STATS after every step, final drain; data-stream-random: random scripts with unary and "
@@ -641,7 +655,7 @@ reg("C04", [eng_deadline_pure, eng_deadline_probes((None,), M.mon_deadline, "dea
 
 reg("C05", [eng_id_lists(M.mon_deadline, ("nack", "mod")), eng_deadline_pure, eng_deadline_probes((0, 1, 5, 30, 599, 600, 700, -1), M.mon_deadline, "modify-probes"),
             eng_data_random(M.mon_deadline, {"MOD"}, streams=True, tag="data-stream-random"),
-            eng_data_enum(M.mon_deadline, {"MOD"}), eng_modify_batches],
+            eng_data_enum(M.mon_deadline, {"MOD"}), eng_modify_batches, eng_stream_enum(M.mon_deadline)],
     rule="DX: parse of every boundary i32 and random values; modify-probes: a lease modified with N in "
          "{0,1,5,30,599,600,700,-1} three seconds after hand-out, probes around the new, the old and the neighbour's "
          "deadline; random scripts with unary and streaming modifications mixing live, stale, unknown and malformed ids. "
